@@ -663,7 +663,11 @@ class BareGitStore(GitStore):
         old_tree_id = tree.id
         name_enc = name.encode(DEFAULT_ENCODING)
         tree[name_enc] = (0o644 | stat.S_IFREG, b.id)
-        self.repo.object_store.add_objects([(tree, ""), (b, name_enc)])
+        try:
+            self.repo.object_store.add_objects([(tree, ""), (b, name_enc)])
+        except FileLocked as exc:
+            # Another writer is storing the very same objects right now
+            raise LockedError(name) from exc
         if tree.id != old_tree_id:
             self._commit_tree(tree.id, message.encode(DEFAULT_ENCODING), author=author)
         return b.id
@@ -689,7 +693,11 @@ class BareGitStore(GitStore):
         if etag is not None and current_sha != etag.encode("ascii"):
             raise InvalidETag(name, etag, current_sha.decode("ascii"))
         del tree[name_enc]
-        self.repo.object_store.add_objects([(tree, "")])
+        try:
+            self.repo.object_store.add_objects([(tree, "")])
+        except FileLocked as exc:
+            # Another writer is storing the very same objects right now
+            raise LockedError(name) from exc
         if message is None:
             fi = open_by_extension(
                 self.repo.object_store[current_sha].chunked,
